@@ -20,8 +20,8 @@ Final(prog, regs0, img, memSize, fuel) == RunSeq(prog, InitState(regs0), img, me
 FinalM(prog, regs0, mem0, img, memSize, fuel) == RunSeq(prog, InitStateM(regs0, mem0), img, memSize, fuel)
 
 (* a run the properties quantify over: terminates by ret or by running off the end *)
-WellFormed(fin) == fin.status \in {"ret", "end"}
-Defined(fin) == fin.status \in {"ret", "end", "err"}
+WellFormed(fin) == fin.status \in {"ret", "end"} /\ ~fin.misal
+Defined(fin) == fin.status \in {"ret", "end", "err"} /\ ~fin.misal
 
 IntRegs(regs) == [r \in DOMAIN regs |-> ToInt(regs[r])]
 
@@ -44,6 +44,7 @@ Path(fin) == [k \in 1 .. Len(fin.ev) |-> fin.ev[k].i]
 
 CaseRec(fam, prog, regs0, img, memSize, fin, focusRegs, focusAddrs, tags, extra) ==
   [ mem0 |-> <<>>, fam |-> fam, prog |-> prog, regs0 |-> IntRegs(regs0), img |-> img, memSize |-> memSize,
+    misal |-> fin.misal,
     exp |-> [ status |-> fin.status, regs |-> IntRegs(fin.regs), mem |-> fin.mem, n |-> fin.n,
               cyc1 |-> fin.cyc1, cyc2 |-> fin.cyc2,
               \* MVP-3 writes every resident data line back when the run ends
